@@ -71,9 +71,51 @@ func SignBytesObserved(tx *types.Transaction) []byte {
 	return spyMsg
 }
 
-// DriverNameOf is the crypto driver name CheckSign resolves for tx (signature must be non-nil).
+// ModelCryptoIDMask is the crypto-id mask of the specification/model (Model/C16.lean
+// extractCryptoID), deliberately NOT read from the code under test.
+const ModelCryptoIDMask = 0x3fff8fff
+
+// DriverNameOf is the crypto driver the specification resolves for tx (signature must be non-nil):
+// type id = ty & mask, looked up in the registry.  Independent of types.GetSignName /
+// types.ExtractCryptoID (the code under test); executors of the system set do not override it.
 func DriverNameOf(tx *types.Transaction) string {
-	return types.GetSignName(string(tx.Execer), int(tx.Signature.Ty))
+	return crypto.GetName(int(tx.Signature.Ty & ModelCryptoIDMask))
+}
+
+// Expected is the harness's own record of what each driver's enable state should be, derived from
+// the configurations it applied (documented crypto.Init semantics), not from crypto.Load.
+var Expected map[string]DrvInfo
+
+// ApplyInit updates Expected the way crypto.Init is documented to behave.
+func ApplyInit(enableTypes []string, heights map[string]int64) {
+	if Expected == nil {
+		return
+	}
+	if len(enableTypes) > 0 {
+		on := map[string]bool{}
+		for _, n := range enableTypes {
+			on[n] = true
+		}
+		for n, d := range Expected {
+			d.Enable = on[n]
+			Expected[n] = d
+		}
+	}
+	for n, h := range heights {
+		if d, ok := Expected[n]; ok && d.Enable {
+			d.Height = h
+			Expected[n] = d
+		}
+	}
+}
+
+// ExpectEnabled: should driver name be usable at height h (h >= 0)?
+func ExpectEnabled(name string, h int64) bool {
+	if Expected != nil {
+		d, ok := Expected[name]
+		return ok && d.Enable && d.Height >= 0 && h >= d.Height
+	}
+	return LoadRes(name, h) == "ok"
 }
 
 // Oracle is the driver's own verdict on (message as observed through the spy, pub, sig): 1 | 0 | p(anic).
